@@ -30,6 +30,7 @@ func genFaultScn(rng *rand.Rand, maxN int, phase time.Duration) faultScn {
 	at := func() time.Duration { return time.Duration(rng.Int63n(int64(phase))) }
 	nact := 2 + rng.Intn(10)
 	crashed := map[int]bool{}
+	leftAt := map[int]time.Duration{}
 	gone := 0
 	for i := 0; i < nact; i++ {
 		t := at()
@@ -94,6 +95,7 @@ func genFaultScn(rng *rand.Rand, maxN int, phase time.Duration) faultScn {
 				crashed[a] = true
 				gone++
 				sc.Actions = append(sc.Actions, faultAction{At: t, Kind: "leave", A: a})
+				leftAt[a] = t
 			}
 		default:
 			sc.Actions = append(sc.Actions, faultAction{At: t, Kind: "update", A: rng.Intn(sc.N)})
@@ -131,6 +133,17 @@ func genFaultScn(rng *rand.Rand, maxN int, phase time.Duration) faultScn {
 	sc.Actions = append(sc.Actions, extra...)
 	sortActions(sc.Actions)
 	sc.rareConfig(rng)
+	// (drawn last, so that the scripts of a seed stay what they were) a name that left comes back, from its old
+	// address or from another one
+	for a, t := range leftAt {
+		if rng.Intn(2) == 0 {
+			back := t + time.Duration(16+rng.Intn(40))*time.Second
+			if back < phase {
+				sc.Actions = append(sc.Actions, faultAction{At: back, Kind: "rejoin", A: a, P: float64(rng.Intn(2))})
+			}
+		}
+	}
+	sortActions(sc.Actions)
 	return sc
 }
 
